@@ -137,6 +137,12 @@ Definition step (s : list (Z * full)) (o e : line) : list (Z * full) * outline :
       | Some f => let '(c, m) := f_sk f in (s, (total m :: flat (cells m), []))
       | None => (s, (refused, []))
       end
+  | 6 :: r :: r2 :: _ =>                          (* r2 := deserialize (serialize r) (either path): same configuration, seeds, cells *)
+      match reg_get s r with
+      | Some f => let '(c, m) := f_sk f in
+                  (reg_set s r2 f, (1 :: Z.of_N (c_seed c) :: map Z.of_N (c_seeds c), []))
+      | None => (s, (refused, []))
+      end
   | _ => (s, ([-2], []))
   end.
 
